@@ -515,6 +515,7 @@ pub fn plan_c11(thorough: bool) -> Plan {
     cases.extend(disjoint_pages_chain_family("all"));
     cases.extend(emptied_and_refilled_cluster_family("all"));
     cases.extend(macro_overlay_chains("all", 3));
+    cases.extend(late_frozen_child_family());
     cases.extend(writeless_overlay_family());
     for cse in cases.iter_mut() {
         cse["final_rollback"] = json!(true);
@@ -859,6 +860,74 @@ pub fn macro_overlay_chains(audit: &str, depth: usize) -> Vec<Value> {
     cases
 }
 
+
+/// A changeset prepared on an overlay P is frozen into an overlay C (`into_overlay`) only AFTER P
+/// has been committed; then nothing / a commit / a commit and its rollback / a rollback of P happen,
+/// and C is committed (blocking / non-blocking): C is P's child whenever it was frozen — accepted
+/// only if P's commit was the last commit.
+pub fn late_frozen_child_family() -> Vec<Value> {
+    let mut cases = vec![];
+    let mut cfg = rb_cfg(3, 0);
+    cfg.buckets = 64;
+    let uni = vec!["CL12:17-23"];
+    let betweens: Vec<Vec<Value>> = vec![
+        vec![],
+        vec![c(vec![w(4, 1)]), json!({"rb": 1})],
+        vec![c(vec![])],
+        vec![c(vec![w(4, 1)])],
+        vec![json!({"rb": 1})],
+    ];
+    for a in [vec![w(0, 5)], vec![w(2, 1)]] {
+        for x in [vec![w(3, 1)], vec![del(1)]] {
+            for between in &betweens {
+                for ovc in ["ovc", "ovcn"] {
+                    let mut ops = vec![json!({"ov": {"id": 0, "on": [], "b": a}}), json!({"prep": {"id": 0, "on": [0], "b": x}}), json!({"ovc": 0}), json!({"p2ov": {"prep": 0, "ov": 1}})];
+                    ops.extend(between.iter().cloned());
+                    ops.push(json!({ovc: 1}));
+                    ops.push(c(vec![w(5, 3)]));
+                    ops.push(json!({"rb": 1}));
+                    let mut cse = case("cl12x19", uni.clone(), &cfg, "all", ops, 4, true);
+                    cse["final_rollback"] = json!(true);
+                    cases.push(cse);
+                }
+            }
+        }
+    }
+    cases
+}
+
+/// The state returns to an earlier root through NON-BLOCKING overlay commits only (an overlay
+/// inserts a 20th key below a 19-key cluster — the cluster's page becomes stored —, a second one
+/// deletes it again), and a changeset prepared before is committed afterwards: refused, or — if
+/// accepted because the content is the same — harmless in everything that follows.
+pub fn aba_through_overlay_commits_family() -> Vec<Value> {
+    let mut cases = vec![];
+    let mut cfg = rb_cfg(3, 0);
+    cfg.buckets = 64;
+    let uni = vec!["CL12:17-23"];
+    for x in [vec![w(2, 1)], vec![w(2, 1), w(3, 1)], vec![w(0, 9)]] {
+        for (o1, o2) in [("ovcn", "ovcn"), ("ovc", "ovcn"), ("ovcn", "ovc")] {
+            for fc in ["fc", "fcn"] {
+                let ops = vec![
+                    json!({"prep": {"id": 0, "b": x}}),
+                    json!({"ov": {"id": 0, "on": [], "b": [w(4, 1)]}}),
+                    json!({"ov": {"id": 1, "on": [0], "b": [del(4)]}}),
+                    json!({o1: 0}),
+                    json!({o2: 1}),
+                    json!({fc: 0}),
+                    c(vec![w(5, 3), del(2)]),
+                    json!({"reopen": {}}),
+                    c(vec![w(2, 2)]),
+                ];
+                let mut cse = case("cl12x19", uni.clone(), &cfg, "all", ops, 4, true);
+                cse["final_rollback"] = json!(true);
+                cases.push(cse);
+            }
+        }
+    }
+    cases
+}
+
 pub fn plan_c12(thorough: bool) -> Plan {
     let mut cases = vec![];
     for (seed, uni, batches) in [
@@ -923,6 +992,8 @@ pub fn plan_c12(thorough: bool) -> Plan {
     }
     cases.extend(attempt_in_between_family());
     cases.extend(prepared_on_overlay_family());
+    cases.extend(late_frozen_child_family());
+    cases.extend(aba_through_overlay_commits_family());
     for cse in cases.iter_mut() {
         cse["final_rollback"] = json!(true);
     }
@@ -936,7 +1007,7 @@ pub fn plan_c12(thorough: bool) -> Plan {
     sort_by_bound(&mut cases);
     let mut p = Plan::new(
         cases,
-        "histx: every event sequence of length ≤L over {prepare a changeset (finished session) on the current state (2 batches, ≤3 prepared), commit prepared changeset i (blocking / non-blocking), create ≤2 overlays, commit / drop an overlay (blocking / non-blocking), direct commit, rollback(1|2)} from a leaf seed and a 20-key merkle cluster, rollback enabled; plus deferred non-blocking commits (1–3 attempts of a prepared session / overlay while a session is alive on the calling thread must each hand the changeset back and change nothing; it is then committed and rolled back); oracle: an attempt is accepted iff its base equals the current state (overlay: and its parent was the last commit), a rejected attempt returns an error, does not poison, and values, root, sync_seqn and what every later rollback restores are those of the model in which the attempt never happened; final reopen; every history ends with one more rollback(1) as a probe of the rollback history (a stray or a missing record shows whatever the history did last). Plus the attempt-in-between family of C11 (the commit-order bookkeeping must survive refused and deferred attempts); changesets prepared by a session on a chain of uncommitted overlays and committed directly after the chain was committed, with nothing / a commit / a commit rolled back again (page-elision boundary crossed and re-crossed) / a rollback of the chain in between; and, under the controlled scheduler, every schedule with ≤2 (thorough 3) preemptions of two threads committing changesets (blocking / non-blocking / overlay) prepared on one base, and of a prepared changeset or overlay against rollback(1): exactly the attempts whose base is current at the moment they are applied win, the loser changes nothing (harnesses H3, H3nb, H3ov, H8, H8ov of C15).",
+        "histx: every event sequence of length ≤L over {prepare a changeset (finished session) on the current state (2 batches, ≤3 prepared), commit prepared changeset i (blocking / non-blocking), create ≤2 overlays, commit / drop an overlay (blocking / non-blocking), direct commit, rollback(1|2)} from a leaf seed and a 20-key merkle cluster, rollback enabled; plus deferred non-blocking commits (1–3 attempts of a prepared session / overlay while a session is alive on the calling thread must each hand the changeset back and change nothing; it is then committed and rolled back); oracle: an attempt is accepted iff its base equals the current state (overlay: and its parent was the last commit), a rejected attempt returns an error, does not poison, and values, root, sync_seqn and what every later rollback restores are those of the model in which the attempt never happened; final reopen; every history ends with one more rollback(1) as a probe of the rollback history (a stray or a missing record shows whatever the history did last). Plus the attempt-in-between family of C11 (the commit-order bookkeeping must survive refused and deferred attempts); changesets prepared by a session on a chain of uncommitted overlays and committed directly after the chain was committed, with nothing / a commit / a commit rolled back again (page-elision boundary crossed and re-crossed) / a rollback of the chain in between; a changeset prepared on an overlay P and frozen into an overlay (into_overlay) only after P was committed, then committed after nothing / a commit / a commit and its rollback / a rollback (it is P's child whenever it was frozen); a return to an earlier root through non-blocking overlay commits only (insert a 20th key below a 19-key cluster, delete it again) followed by the commit of a changeset prepared before; and, under the controlled scheduler, every schedule with ≤2 (thorough 3) preemptions of two threads committing changesets (blocking / non-blocking / overlay) prepared on one base, and of a prepared changeset or overlay against rollback(1): exactly the attempts whose base is current at the moment they are applied win, the loser changes nothing (harnesses H3, H3nb, H3ov, H8, H8ov of C15).",
     );
     p.budget_s = if thorough { 1700 } else { 55 };
     p
